@@ -222,4 +222,150 @@ class C11a(Obligation):
         ctx.check(ctx.implies(valid, ok), 'index is admissible under Python binding rules')
 
 
-OBLIGATIONS = [C11a]
+class RPN(PN):
+    """parameter stub that renders like BaseTreeParamName.to_string (stars from the kind)"""
+
+    def to_string(self):
+        if self.kind == VP:
+            return '*' + self.string_name
+        if self.kind == VK:
+            return '**' + self.string_name
+        return self.string_name
+
+
+from jedi.inference.signature import _SignatureMixin, AbstractSignature  # noqa: E402
+
+
+class Sig(_SignatureMixin):
+    _pysym_holder = True
+    annotation_string = ''
+
+    def __init__(self, params):
+        self._params = params
+        self.name = Obj(string_name='f')
+
+    def get_param_names(self, resolve_stars=False):
+        return self._params
+
+
+def reparse(tokens):
+    """kinds of a rendered parameter list, read back with Python's grammar; None if not a valid list"""
+    if tokens.count('/') > 1 or tokens.count('*') > 1:
+        return None
+    slash = tokens.index('/') if '/' in tokens else None
+    if slash == 0:
+        return None
+    kinds = []
+    kwonly = False
+    seen_var_positional = False
+    for i, t in enumerate(tokens):
+        if t == '/':
+            if kwonly:
+                return None
+            continue
+        if t == '*':
+            if seen_var_positional or kwonly:
+                return None
+            nxt = tokens[i + 1] if i + 1 < len(tokens) else None
+            if nxt is None or nxt.startswith('*') or nxt == '/':
+                return None             # a bare * needs a keyword-only parameter after it
+            kwonly = True
+            continue
+        if t.startswith('**'):
+            if i != len(tokens) - 1:
+                return None
+            kinds.append(VK)
+        elif t.startswith('*'):
+            if kwonly or seen_var_positional:
+                return None
+            seen_var_positional = True
+            kwonly = True
+            kinds.append(VP)
+        elif kwonly:
+            kinds.append(KO)
+        elif slash is not None and i < slash:
+            kinds.append(PO)
+        else:
+            kinds.append(PK)
+    return kinds
+
+
+class C11b(Obligation):
+    id = 'C11.b'
+    title = 'to_string(): the rendered parameter list re-parses to the same kinds (/, * markers)'
+    pattern = 'P1 kernel vs reference (Python grammar for / and *)'
+    assumptions = (
+        'all valid parameter-kind sequences up to P parameters with SYMBOLIC kinds (the interpreter forks on the '
+        'comparisons to_string makes); parameters render as name, *name, **name according to their kind',
+    )
+
+    def configs(self, tier):
+        return [dict(P=p) for p in (range(0, 5) if tier == 'quick' else range(0, 7))]
+
+    def scenario(self, ctx, cfg):
+        P = cfg['P']
+        kinds = [ctx.int('kind%d' % i, 0, 4) for i in range(P)]
+        for i in range(P):
+            if i:
+                ctx.assume(kinds[i - 1] <= kinds[i])
+            for j in range(i):
+                ctx.assume(ctx.Not(ctx.And(kinds[i] == kinds[j], ctx.Or(kinds[i] == 2, kinds[i] == 4))))
+        params = [RPN(kinds[i], 'p%d' % i) for i in range(P)]
+        out = ctx.call(Sig(params).to_string)
+        ctx.check(out.exc is None, 'to_string never raises')
+        if out.exc is not None:
+            return
+        text = out.value
+        ctx.check(text.startswith('f(') and text.endswith(')'), 'name(params)')
+        inner = text[2:-1]
+        tokens = inner.split(', ') if inner else []
+        got = reparse(tokens)
+        ctx.check(got is not None, 'the rendered list is a valid Python parameter list')
+        if got is None:
+            return
+        ctx.check(len(got) == P, 'every parameter is rendered once')
+        if len(got) == P:
+            ctx.check(ctx.And(*[kinds[i] == int(got[i]) for i in range(P)]) if P else True,
+                      're-parsing gives every parameter its original kind')
+            names = [t.lstrip('*') for t in tokens if t not in ('/', '*')]
+            ctx.check(names == ['p%d' % i for i in range(P)], 'names in order')
+
+
+class FV:
+    def __init__(self, params):
+        self._params = params
+
+    def get_param_names(self):
+        return self._params
+
+
+class BoundSig(AbstractSignature):
+    _pysym_holder = True
+
+    def __init__(self, params, is_bound):
+        self.value = None
+        self.is_bound = is_bound
+        self._function_value = FV(params)
+
+
+class C11d(Obligation):
+    id = 'C11.d'
+    title = 'bound signatures drop exactly the first parameter, unbound ones none'
+    pattern = 'P1'
+    assumptions = ('parameter names are abstract markers; P<=4',)
+
+    def configs(self, tier):
+        return [dict(P=p) for p in range(0, 5)]
+
+    def scenario(self, ctx, cfg):
+        params = ['param%d' % i for i in range(cfg['P'])]
+        bound = ctx.flag('is_bound')
+        ctx.int('unused')
+        out = ctx.call(BoundSig(params, bound).get_param_names)
+        ctx.check(out.exc is None, 'never raises')
+        if out.exc is None:
+            ctx.check(list(out.value) == (params[1:] if bound else params),
+                      'self/cls is removed exactly where Python binds it')
+
+
+OBLIGATIONS = [C11a, C11b, C11d]
